@@ -204,13 +204,14 @@ def specCall (env : Env) (c : Call) : Verdict :=
   match c.kind with
   | .perCall => specChecks env c.checks []
   | .resetEachAccess => specChecks env c.checks []
-  | .genericInstance g =>
+  | .genericInstance _ g =>
       if g.isEmpty then .unclaimed                     -- not created as `Cls[X](...)` (or still inside `__init__`)
       else specChecks env (substChecks g c.checks) []
 
 def specHistory (env : Env) (h : List Call) : List Verdict := h.map (specCall env)
 
-/-! ### regions of recorded findings (classification only; never used to decide a verdict) -/
+/-! ### regions of recorded (also: formerly recorded) findings — classification only, never used to decide a verdict.
+    A failure in a region whose finding is no longer listed as open is reported as a violation under its old name. -/
 
 mutual
 /-- TypeVars at positions where a value can be bound (not below `Type[...]`) -/
@@ -244,7 +245,7 @@ def regions (env : Env) (earlier : List Call) (c : Call) : List String :=
     | .resetEachAccess => if sharedAcrossChecks c.checks then ["nonGenericPedanticClassResetsBindings"] else []
     | _ => []
   let r3 := match c.kind with
-    | .genericInstance g =>
+    | .genericInstance _ g =>
         if !g.isEmpty && (callTVs c).any (fun t => !(keysOf g).contains t &&
               earlier.any (fun e => e.inst == c.inst && (callTVs e).contains t))
         then ["methodLevelTypeVarLeaks"] else []
